@@ -536,7 +536,7 @@ VERSIONS = {"produce": (0, 2, 2, 3, 7), "fetch": (0, 2, 2, 4)}   # decoder api_v
 
 # ------------------------------------------------------------------ message sets
 def g_kmsg(g, magic):
-    attr = g.rnd.choice([0, 0, 0, 8, 0xF0, 0xFC, 4])          # codec bits 0, the other bits arbitrary
+    attr = g.rnd.choice([0, 0, 0, 8, 0xF0, 0xF8, 0x10])       # codec bits 0..2 all 0, the other bits arbitrary
     ts = g.rnd.choice([0, 1, -1, 1500000000000, I64[0], I64[1], g.rnd.getrandbits(41)])
     return (magic, attr, ts, g.oblob(8), g.oblob(16))
 
@@ -577,7 +577,7 @@ def expected_log(trees):
     return [len(log)] + sum(([o] + kmsg_ints(m) for o, m in log), []) + [0]
 
 
-def afkak_set(g, rec_clock=1600000000000):
+def afkak_set(g, rec_clock=1600000000000, big=False):
     """a message set produced by afkak's OWN encoder (create_message / create_gzip_message / create_message_set /
     _encode_message_set).  Returns (bytes, expected trace of the decoder, description)."""
     from afkak.common import SendRequest
@@ -585,8 +585,12 @@ def afkak_set(g, rec_clock=1600000000000):
     rnd = g.rnd
     magic = rnd.choice([0, 1])
     kind = rnd.choice(["plain", "plain_none", "gzip", "gzip", "create_set_gzip", "nested2", "nested2_mixed"])
-    with CL.Recorder(rec_clock, 1):
+    if big:
+        kind = rnd.choice(["gzip", "create_set_gzip", "nested2"])
+    with CL.Recorder(rec_clock, 1) as rec:
         payloads = [(g.oblob(6), g.oblob(12)) for _ in range(rnd.randint(0 if kind.startswith("plain") else 1, 4))]
+        if big:      # inner set > 64 KiB, incompressible: > 16 KiB compressed
+            payloads = [(g.oblob(6), CL.rbytes(rnd, 1024)) for _ in range(80)]
         msgs = [create_message(v, k, magic) for k, v in payloads]
         if rnd.random() < 0.3 and magic == 1:   # explicit timestamps, arbitrary attribute bits outside the codec mask
             msgs = [CL.mk_msg(1, rnd.choice([0, 8, 0xF0]), m.key, m.value, rnd.choice([0, -1, I64[1], I64[0], 77])) for m in msgs]
@@ -617,6 +621,9 @@ def afkak_set(g, rec_clock=1600000000000):
             # offsets through (0; an inner magic-1 wrapper stored at 0 relocates to 0 as well).
             off = base if wmagic[0] == 1 else 0
             want = None if want_msgs is None else [(off, m) for m in want_msgs]
+    audit_pairs(rec.pairs)
+    if big:
+        kind = "big_" + kind
     if want is None:
         return data, None, kind + "_magic%d" % magic, payloads
     tr = [len(want)] + sum(([o] + CL.msg_ints(m) for o, m in want), []) + [0]
@@ -823,8 +830,8 @@ def run(ck):
                           "data_hex": spec_bytes("fetch", r, 2).hex(), "expected_trace": expected("fetch", r, 2, lambda rec: want_log),
                           "replay_op": "decode"})
     # sets written by afkak's own encoder: encode -> decode must be the identity on messages
-    for i in range(nsets):
-        data, want, label, payloads = afkak_set(g)
+    for i in range(nsets + 3):
+        data, want, label, payloads = afkak_set(g, big=(i >= nsets))
         ver = rnd.choice([0, 2])
         r = fetch_with([data], ver)
         if want is not None:
@@ -1010,6 +1017,20 @@ def run(ck):
         s = KS.enc_kforest(trees)
         for d in mutations(rnd, s, 3):
             hostile.append(("fetch", 0, spec_bytes("fetch", (1, 0, [(b"t", [(0, 0, 5, d)])]), 0), "fetch_damaged_set"))
+    # CRC-valid messages the grammar does not produce: codec numbers 2 (snappy, not installed), 3 and the undefined
+    # 4..7 (afkak masks two bits: 4 and 0xFC are read as "uncompressed"), a wrapper with a null value, a wrapper whose
+    # decompressed set ends in a partial entry, a wrapper holding garbage
+    for mg in (0, 1):
+        leaf = ("leaf", 3, (mg, 0, 1, b"k", b"v"))
+        odd = [[("leaf", 1, (mg, a, 2, b"k", b"v"))] for a in (4, 0xFC, 5, 2, 3, 6, 7)]
+        odd += [[("wrap", 9, mg, a, 0, None, [leaf])] for a in (2, 3, 6, 7)]
+        for trees in odd:
+            hostile.append(("fetch", 0, spec_bytes("fetch", (1, 0, [(b"t", [(0, 0, 5, KS.enc_kforest(trees))])]), 0), "undefined_or_unavailable_codec"))
+        nullw = KS.enc_entry(9, KS.enc_kmsg((mg, 1, 0, None, None)))
+        cut = KS.enc_kforest([("wrap", 9, mg, 1, 0, None, [leaf, leaf])], gz=lambda inner: KS.gzip_compress(inner[:-5]))
+        junk = KS.enc_kforest([("wrap", 9, mg, 1, 0, None, [leaf])], gz=lambda inner: b"not gzip at all")
+        for d in (nullw, KS.enc_kforest([leaf]) + nullw, cut, junk):
+            hostile.append(("fetch", 0, spec_bytes("fetch", (1, 0, [(b"t", [(0, 0, 5, d)])]), 0), "odd_wrapper"))
     for api, ver, d, label in hostile:
         add(api, None, ver, d, None, label=api + "_" + label, monitor=False)
 
